@@ -62,6 +62,28 @@ func writeChain(w *fix.World) encryptor.DataEncryptor {
 	return encryptor.NewChainDataEncryptor(crypto.NewEncryptHandler(w.Reg), se, crypto.NewReEncryptHandler(w.KS))
 }
 
+// yamlSetting is the setting of column c as the proxies get it: loaded from an encryptor configuration, so that the
+// loader's defaults apply (crypto_envelope acrablock, reencrypting_to_acrablocks true) - settings built as
+// literals do not have them.
+var yamlSettings = map[string]config.ColumnEncryptionSetting{}
+
+func yamlSetting(extra string) config.ColumnEncryptionSetting {
+	if s, ok := yamlSettings[extra]; ok {
+		return s
+	}
+	yaml := "schemas:\n  - table: t\n    columns: [id, c]\n    encrypted:\n      - column: c\n" + extra
+	store, err := config.MapTableSchemaStoreFromConfig([]byte(yaml), config.UsePostgreSQL)
+	if err != nil {
+		panic(fmt.Sprintf("yaml setting %q: %v", extra, err))
+	}
+	s := store.GetTableSchema("t").GetColumnEncryptionSettings("c")
+	if s == nil {
+		panic("yaml setting: column not configured")
+	}
+	yamlSettings[extra] = s
+	return s
+}
+
 func handlerOf(kind string) crypto.ContainerHandler {
 	id := byte(crypto.AcraStructEnvelopeID)
 	if kind == fix.KindBlock {
@@ -106,6 +128,20 @@ func protectors() []Protector {
 			}},
 		)
 	}
+	ps = append(ps,
+		Protector{"writeChain/config-default", fix.KindBlock, fix.FormContainer, func(w *fix.World, id, x []byte) ([]byte, error) {
+			return writeChain(w).EncryptWithClientID(id, x, yamlSetting(""))
+		}},
+		Protector{"writeChain/config-acrastruct", fix.KindStruct, fix.FormContainer, func(w *fix.World, id, x []byte) ([]byte, error) {
+			return writeChain(w).EncryptWithClientID(id, x, yamlSetting("        crypto_envelope: acrastruct\n"))
+		}},
+		Protector{"writeChain/config-searchable", fix.KindBlock, fix.FormSearchWrapped, func(w *fix.World, id, x []byte) ([]byte, error) {
+			return writeChain(w).EncryptWithClientID(id, x, yamlSetting("        searchable: true\n"))
+		}},
+		Protector{"writeChain/config-no-reencryption", fix.KindBlock, fix.FormContainer, func(w *fix.World, id, x []byte) ([]byte, error) {
+			return writeChain(w).EncryptWithClientID(id, x, yamlSetting("        reencrypting_to_acrablocks: false\n"))
+		}},
+	)
 	ps = append(ps,
 		Protector{"Translator.Encrypt", fix.KindStruct, fix.FormContainer, func(w *fix.World, id, x []byte) ([]byte, error) {
 			return w.Svc.Encrypt(fix.Ctx(id), x, id, nil)
@@ -650,6 +686,13 @@ func TestReplay(t *testing.T) {
 			}
 			vs, _, _ := CheckFraming(c)
 			return vs
+		},
+		"TestKeyIDCollision": func(raw json.RawMessage) hx.Vs {
+			var c KeyIDCase
+			if err := json.Unmarshal(raw, &c); err != nil {
+				return hx.Vs{{Sig: "harness:decode", Msg: err.Error()}}
+			}
+			return CheckKeyID(c)
 		},
 	})
 }
